@@ -578,6 +578,10 @@ class NpProxy:
             out = _np.empty(x.shape, dtype=object)
             for idx in _np.ndindex(*x.shape):
                 v = x[idx]
+                if isinstance(v, Sym) and not v.is_const():
+                    v = _normalise_const(v)
+                if isinstance(v, Sym) and v.is_const():
+                    v = v.const_value()
                 out[idx] = root(v, 2) if isinstance(v, Sym) else _exact_or_float_sqrt(v)
             return out.view(type(x)) if type(x) is not _np.ndarray else out
         return _np.sqrt(x, *a, **k)
@@ -641,6 +645,18 @@ class NpProxy:
             if any(isinstance(o, _np.ndarray) and o.dtype == object for o in ops):
                 ops = [o.astype(object) if isinstance(o, _np.ndarray) else o for o in ops]
             return _np.einsum(*ops, **kwargs)
+
+
+def _normalise_const(v):
+    """a symbolic value written with auxiliaries that is in fact a constant (e.g. (a r)^2 / r^2 with r^2 = 2) -> that constant"""
+    from .oblig import reduce_mod_sides
+
+    if not ctx().auxdef:
+        return v
+    n, d = reduce_mod_sides(v.n), (v.d if v.d.is_const() else reduce_mod_sides(v.d))
+    if n.is_const() and d.is_const() and not d.is_zero():
+        return as_sym(n.const_value() / d.const_value())
+    return v
 
 
 def _exact_or_float_sqrt(v):
